@@ -63,7 +63,8 @@ def gen_forest(rng, shape=None, siblings=True):
     def mk_unit(kind, idx):
         version = rng.choice([2, 3, 4, 4, 5, 5])
         root = Die("partial_unit" if kind == "p" else "compile_unit", rand_attrs(rng, version, name=("%s%d.c" % (kind, idx)).encode()))
-        if shape == "empty" and rng.random() < 0.6:
+        if (shape == "empty" and rng.random() < 0.6) or (kind == "p" and rng.random() < 0.2):
+            # root only; also partial units without children (their imports contribute nothing)
             if rng.random() < 0.5:
                 root.has_children = True
         elif shape == "deep":
